@@ -70,6 +70,17 @@ func runBounds(c *Ctx, rule string, roots []*ssa.Function) *boundsRun {
 	return b
 }
 
+// runBoundsLite: the arithmetic obligations only (index, slice, bit-read preconditions, division, shift,
+// type assertion, make, explicit panic) for the functions accepted by fnOK among those reachable from the
+// roots.  For code outside the decoder whose nil-ness and external calls are not the property's subject.
+func runBoundsLite(c *Ctx, rule string, roots []*ssa.Function, fnOK func(*ssa.Function) bool) *boundsRun {
+	b := newBoundsRun(c, rule, roots)
+	b.kinds = map[string]bool{"index": true, "slice": true, "requires": true, "div": true, "shift": true, "assert": true, "make": true, "panic": true}
+	b.fnOK = fnOK
+	b.run()
+	return b
+}
+
 // satCellsRequires: facts assumed at the entry of GetSignalCells (verified at its call sites).
 func satCellsRequires(a *Aff, fn *ssa.Function, hdrP, satP *ssa.Parameter) []Con {
 	sats := a.P.Field("rtcm/header", "Header", "Satellites")
